@@ -508,7 +508,8 @@ class GeoGrid(Grid):
         :return: bool array with True for nodes inside region
         """
         # Reshape Google Earth array  into (n,2) array
-        remapped_region = region.reshape(len(region)//2, 2)
+        remapped_region = np.array(region, dtype=float).reshape(
+            len(region)//2, 2)
         # Remap from East-West to 360 degree map if the longitudes are [0, 360]
         if self._grid["space"][1].min() >= 0:
             remapped_region[remapped_region[:, 0] < 0, 0] = \
